@@ -40,11 +40,19 @@ func cleanEnv(home string, extra ...string) []string {
 // announces its listening address or exits. wait bounds the wait (generous; only a failure to start in time is
 // reported as such).
 func startBin(args, env []string, cwd, logPath string, wait time.Duration) (*BinSrv, error) {
+	return startBinLimited(args, env, cwd, logPath, wait, 0)
+}
+
+// startBinLimited: nofile > 0 starts the server with that many file descriptors at most (ulimit -n, soft and hard).
+func startBinLimited(args, env []string, cwd, logPath string, wait time.Duration, nofile int) (*BinSrv, error) {
 	lf, err := os.Create(logPath)
 	if err != nil {
 		return nil, err
 	}
 	cmd := exec.Command(binPath(), args...)
+	if nofile > 0 {
+		cmd = exec.Command("/bin/bash", append([]string{"-c", fmt.Sprintf("ulimit -n %d && exec \"$0\" \"$@\"", nofile), binPath()}, args...)...)
+	}
 	cmd.Env = env
 	cmd.Dir = cwd
 	cmd.Stdout = lf
